@@ -17,7 +17,9 @@ PID = "C03"
 
 def fixed_plan():
     return {b"a1@local.example": [b"K"], b"a2@remote.example": [b"D"], b"a3@local.example": [b"Z", b"Xjunk", b"K"],
-            b"b1@remote.example": [b"Z", b"D"], b"c1@local.example": [b"D"], b"c2@local.example": [b"Z", b"Z", b"K"]}
+            b"b1@remote.example": [b"Z", b"D"], b"c1@local.example": [b"D"], b"c2@local.example": [b"Z", b"Z", b"K"],
+            # three records of equal length on one channel: the first finishes, the second is deferred twice, the third once
+            b"d1@local.example": [b"K"], b"d2@local.example": [b"Z", b"Z", b"K"], b"d3@local.example": [b"Z", b"K"]}
 
 def fixed_history(R, kill_mid=False):
     R.inject(b"s@x.example", [b"a1@local.example", b"a2@remote.example", b"a3@local.example"])
@@ -27,7 +29,8 @@ def fixed_history(R, kill_mid=False):
     if kill_mid:
         R.kill(); R.start()
     R.inject(b"t@y.example", [b"c1@local.example", b"c2@local.example"])
-    return R.drain()
+    R.inject(b"w@z.example", [b"d1@local.example", b"d2@local.example", b"d3@local.example"])
+    return R.drain(18)
 
 def check_history(ck, drv, W, R, tag, fails, mism, extra=None):
     """oracles + trace acceptance for one finished history"""
@@ -109,8 +112,9 @@ def main(pid=PID, focus="drop"):
         ck.nontrivial("rand%d" % h)
     # ---------------------------------------------------------------- 4. single failing system calls of qmail-send
     faults = ["unlink:local/:5:1", "unlink:info/:5:1", "open:info/:5:1", "open:local/:5:1", "fsync:fd:5:1", "fsync:fd:5:2", "open:bounce/:5:1",
-              "unlink:bounce/:5:1", "open:mess/:5:1", "open:todo/:5:1", "write:fd1:5:1", "unlink:remote/:5:1", "open:remote/:13:2", "link:todo/:5:1"]
-    for fs in (faults if ck.thorough else rng.sample(faults, 5)):
+              "openr:bounce/:5:1", "openr:bounce/:5:2", "openr:mess/:5:2", "openr:mess/:5:4", "open:bounce/:5:2", "open:bounce/:5:3", "unlink:bounce/:5:1", "open:mess/:5:1", "open:mess/:5:3", "open:todo/:5:1", "write:fd1:5:1", "unlink:remote/:5:1", "read:local/:5:2", "read:local/:5:3", "read:local/:5:5", "read:remote/:5:1", "read:remote/:5:2", "read:info/:5:2", "read:todo/:5:1", "read:bounce/:5:1", "open:remote/:13:2", "link:todo/:5:1"]
+    directed = ["openr:bounce/:5:1", "openr:bounce/:5:2", "read:bounce/:5:1", "read:local/:5:3", "openr:mess/:5:2"]      # failures inside injectbounce and in a later pass
+    for fs in (faults if ck.thorough else directed + rng.sample([x for x in faults if x not in directed], 5)):
         W = qc.World(rb, "fault"); R = qc.Runner(W, fixed_plan())
         R.start(send_extra={"SYSSHIM_FAIL": fs}); R.service(0.3)
         fixed_history(R); R.kill(); R.start(); R.drain(6); R.kill()
